@@ -16,11 +16,13 @@ pub struct EmitOpts {
     pub zero: bool,
     pub debug: bool,
     pub size_align: bool,
+    /// put #[derive(PartialEq, Eq)] on the generated struct and offer eq_rewrap()
+    pub derive_eq: bool,
 }
 
 impl EmitOpts {
     pub fn none() -> EmitOpts {
-        EmitOpts { getters: false, withs: false, sets: false, rewrap: false, builder: false, defaults: false, zero: false, debug: false, size_align: false }
+        EmitOpts { getters: false, withs: false, sets: false, rewrap: false, builder: false, defaults: false, zero: false, debug: false, size_align: false, derive_eq: false }
     }
     pub fn accessors() -> EmitOpts {
         EmitOpts { getters: true, withs: true, sets: true, rewrap: true, ..EmitOpts::none() }
@@ -153,7 +155,7 @@ pub fn emit_b_module(id: usize, l: &Layout, o: &EmitOpts, consts: Option<&str>) 
     // the declaration lives in its own module, so that only its public API is reachable from the adapter;
     // every third module carries doc comments on all items, fields and variants (they are passed through
     // to the generated accessors and must not change anything)
-    let ro_decl = RenderOpts { docs: id % 3 == 1, ..RenderOpts::default() };
+    let ro_decl = RenderOpts { docs: id % 3 == 1, struct_derives: if o.derive_eq { "#[derive(PartialEq, Eq)]".to_string() } else { String::new() }, ..RenderOpts::default() };
     writeln!(s, "pub mod decl {{\n    #![allow(dead_code, unused_imports, non_camel_case_types, non_upper_case_globals)]\n    use arbitrary_int::*;").unwrap();
     s.push_str(&render_layout(l, &ro_decl));
     writeln!(s, "}}\nuse decl::*;\n").unwrap();
@@ -211,6 +213,9 @@ pub fn emit_b_module(id: usize, l: &Layout, o: &EmitOpts, consts: Option<&str>) 
         writeln!(s, "    fn debug(&self, alternate: bool) -> String {{ if alternate {{ format!(\"{{:#?}}\", self.0) }} else {{ format!(\"{{:?}}\", self.0) }} }}").unwrap();
     } else {
         writeln!(s, "    fn debug(&self, alternate: bool) -> String {{ panic!(\"ADAPTER-BUG: no Debug\") }}").unwrap();
+    }
+    if o.derive_eq {
+        writeln!(s, "    fn eq_rewrap(&self) -> Option<bool> {{ Some(self.0 == S::new_with_raw_value(self.0.raw_value())) }}").unwrap();
     }
     writeln!(s, "}}\n").unwrap();
 
